@@ -36,7 +36,7 @@ CHECKS = {
         'and Hypothesis attribute-use / wildcard pairs over all subsets of a name pool, plus enumerated small-scope bases, all group-prohibiting '
         'candidates and all ordered wildcard-kind pairs; whenever the library accepts the schema, no '
         'instance may be valid for the derived and invalid for the base type: counter-example words come from exact inclusion on '
-        'the product automaton and must be confirmed by the library\'s own two verdicts. Soundness only (completeness is counted).',
+        'the product automaton and must be confirmed by the library\'s own two verdicts. Soundness only (completeness is counted). A cross-namespace shard restricts a base type of namespace urn:a in namespace urn:b for every ordered pair of ten namespace constraints (element and attribute wildcards), where ##other and ##targetNamespace mean different sets in the two documents.',
         'trusted: vf/oracles/cm.py inclusion; library verdicts on both types confirm each counter-example (no C01 defect is misfiled)',
         'DESIGN.md section 3 C14'),
     'C19': (
@@ -73,7 +73,7 @@ CHECKS = {
         '(full / abandoned iter_errors, strict failures, lax decoding with several converters, encode, to_objects, lazy runs, path= / '
         'max_depth=, stop-validation and mode-switching hooks, raising extra validators, component-level calls, copy) over pools of '
         'valid, invalid and malformed documents for 6 schema sources (xsi:type in identity scopes, wildcards, fixed values, XSD 1.1 '
-        'assertions / alternatives / open content, docgen, corpus); each result must equal a fresh schema\'s result for the same call. A seventh pool holds identity constraints of two sibling scopes whose selectors reach xsi:type-substituted content.',
+        'assertions / alternatives / open content, docgen, corpus); each result must equal a fresh schema\'s result for the same call. A seventh pool holds identity constraints of two sibling scopes whose selectors reach xsi:type-substituted content. Pool A also holds one undeclared tag under a lax wildcard in four roles (xsi:type, xsi:nil, both, neither).',
         'trusted: a freshly built schema as reference (its own determinism is checked by computing every reference twice)',
         'DESIGN.md section 3 C10'),
     'C09': (
@@ -91,7 +91,7 @@ CHECKS = {
         'sections/items template whose identity constraints span chunks are processed with XMLResource(lazy=1, thin_lazy on/off) and '
         'fully loaded: is_valid, the ordered (class, reason) error list of iter_errors, to_json data (default converter where children are '
         'contiguous, JsonML always) and the multiset of iterated elements with in-scope namespaces must agree; lazy=2,3 are explored and '
-        'reported. Six divergences of the lazy *decoding* route are listed known findings. Further families: documents larger than the parser read buffer (keys across reads), local declarations that shadow differently typed global elements, nested inner namespace scopes.',
+        'reported. Five divergences of the lazy *decoding* route are listed known findings (a sixth was repaired). Further families: documents larger than the parser read buffer (keys across reads), local declarations that shadow differently typed global elements, nested inner namespace scopes. A substitution-group family puts members in place of the head at every streamed depth (values valid for the head type, invalid for the member type).',
         'trusted: the fully loaded run as reference leg; error paths are not compared (C19)',
         'DESIGN.md section 3 C06'),
     'C05': (
@@ -100,7 +100,7 @@ CHECKS = {
         'default / BadgerFish / GData (where the model keeps same-named children contiguous and content is not mixed) must give '
         'XML that is valid, structurally equal, typed-value equal and that decodes to the same data; strict encode of data '
         'mutated by drop / duplicate / retype / reorder / rename / wrap must either raise a library error or return XML '
-        'the schema accepts. Crashes of encode on malformed data are known findings identified by call site. A template family adds elements whose declaration is reached indirectly (substitution-group members in place of the head, global list-typed elements admitted by lax / strict wildcards) for seven converters, documents with inner prefix scopes, and encode() without a path on a multi-global schema.',
+        'the schema accepts. Crashes of encode on malformed data are known findings identified by call site. A template family adds elements whose declaration is reached indirectly (substitution-group members in place of the head, global list-typed elements admitted by lax / strict wildcards) for seven converters, documents with inner prefix scopes, and encode() without a path on a multi-global schema. A value-constraint family (fixed element / attribute values in several lexical forms, defaults next to falsy typed values, list values of any length incl. empty) is round-tripped and mutated with same-type value changes (revalue).',
         'trusted: docgen validity by construction; equality is schema-normalised (use_defaults=False, typed comparison)',
         'DESIGN.md section 3 C05'),
     'C08': (
@@ -108,7 +108,7 @@ CHECKS = {
         'Templates (1-2 fields on attributes or child elements; decimal/integer/boolean/string/QName; flat and nested scopes) '
         'x tables of key / keyref / unique rows over {absent, value A in two spellings, value B}: complete for one field and '
         '<= 2 rows per constraint (9261 documents per template in thorough), seeded samples for two fields, three rows and '
-        'several scope instances; ID/IDREF/IDREFS tables; both XSD versions; is_valid() against the reference in both directions. QName-typed fields are also exercised under a default namespace (target-namespace variant of the templates).',
+        'several scope instances; ID/IDREF/IDREFS tables; both XSD versions; is_valid() against the reference in both directions. QName-typed fields are also exercised under a default namespace (target-namespace variant of the templates). A selector / substitution sub-check enumerates eight selectors (wildcard steps, head / member name tests, unions) x all documents of up to three head / member / local rows against XPath name-test semantics.',
         'trusted: oracle() in vf/checks/c08.py (qualified node sets, value-space tuples); unique with partly absent fields is unspecified',
         'DESIGN.md section 3 C08'),
     'C03': (
@@ -172,7 +172,9 @@ CHECKS = {
         'generator knows) are pushed through every entry point, validation mode and source kind; the verdicts, the first '
         'strict error (by identity of the element it is about), the error lists and the typed data must agree; CLI exit '
         'status is checked in-process and by subprocess for error counts around multiples of 256. Refutes only; the '
-        'explored set is what the evidence counts.',
+        'explored set is what the evidence counts. Three template families add what docgen lacks: local declarations shadowing '
+        'differently typed global elements, fixed / default value constraints on simple, simple-content and mixed elements holding '
+        'nothing, blanks, lexical variants, children or comments, and one document per fault kind.',
         'trusted: docgen knows validity by construction (itself cross-checked against the library on every case: a '
         'disagreement is reported as model_verdict); documents carry no QName-valued content',
         'DESIGN.md section 3 C04'),
